@@ -232,7 +232,7 @@ def covering_program(core: bool, variant: int) -> G.Program:
     path = "cover.yaml"
     defs = []
     big = []
-    for i, (tn, w) in enumerate(G.NATIVES.items()):
+    for i, (tn, w) in enumerate((n, G.NATIVES[n]) for n in G.NATIVE_NAMES):
         tag = tn.upper().replace(" ", "_")
         al = f"AL_{tag}"
         al2 = f"AL2_{tag}"
@@ -347,6 +347,8 @@ def case_findings(program: G.Program, ex: L.Exam):
 
     def add(lang, aspect, where, text):
         q = _qualifier(ref, aspect, where)
+        if lang == "c" and aspect.startswith("load/") and "dir-core_defs" in program.classes and q != "generated-name-collision":
+            q = "user-dir-named-core_defs"
         key = f"{lang}/{aspect}" + (f"/{q}" if q else "")
         out.append((key, f"{lang} output disagrees with the reference on {aspect} at {where or 'module level'}: {text}"))
 
